@@ -1,0 +1,154 @@
+//go:build verif
+
+// Contracts for package seclang, checked by /verif/govc (comment-only file; no code).
+package seclang
+
+// bsRun(s, i) (defined in internal/strings/zz_contracts_verif.go): number of consecutive backslashes ending at
+// position i. closingQuoteAt(s, i): position i >= 1 holds a '"' preceded by an even number of backslashes.
+//@ define closingQuoteAt(s string, i int) bool := 1 <= i && i < len(s) && s[i] == '"' && bsRun(s, i-1) % 2 == 0
+
+//@ func cutQuotedString props C16,C07
+//@   ensures split: isnil(result2) ==> s == result0 + result1 && result0 == s[0:len(result0)] && result1 == s[len(result0):len(s)]
+//@   ensures quoted: isnil(result2) ==> 2 <= len(result0) && len(result0) <= len(s) && s[0] == '"' && closingQuoteAt(s, len(result0)-1)
+//@   ensures first: isnil(result2) ==> (forall k int :: 1 <= k && k < len(result0)-1 ==> !closingQuoteAt(s, k))
+//@   ensures fails: !isnil(result2) <==> (len(s) == 0 || s[0] != '"' || (forall k int :: !closingQuoteAt(s, k)))
+//@   ensures !isnil(result2) ==> result0 == "" && result1 == ""
+//@   loop 1 vars i, previousEscapeCount
+//@     invariant 1 <= i && i <= len(s)
+//@     invariant previousEscapeCount >= 0
+//@     invariant previousEscapeCount == bsRun(s, i-1)
+//@     invariant forall k int :: 1 <= k && k < i ==> !closingQuoteAt(s, k)
+//@     decreases len(s) - i
+
+// ---------------------------------------------------------------- action list (C16, C02)
+
+// unquoted(s): s without one enclosing pair of matching quotes (what MaybeRemoveQuotes returns).
+//@ define unquoted(s string) string := ite(hasQuotePair(s), s[1:len(s)-1], s)
+
+// OneDisruptive(res, idx): the list holds at most one disruptive action, and idx is its position (-1: none).
+//@ define OneDisruptive(res []ruleAction, idx int) bool :=
+//@     (idx == -1 || (0 <= idx && idx < len(res) && res[idx].Atype == plugintypes.ActionTypeDisruptive)) &&
+//@     (forall k int :: 0 <= k && k < len(res) && k != idx ==> res[k].Atype != plugintypes.ActionTypeDisruptive)
+
+// suppliedAt(res, p, key, val): entry p is the action just supplied: lower-cased trimmed key, trimmed unquoted value.
+//@ define suppliedAt(res []ruleAction, p int, key string, val string) bool :=
+//@     res[p].Key == lower(trimSpace(key)) && res[p].Value == unquoted(trimSpace(val)) && !isnil(res[p].F) && res[p].Atype == actionType(res[p].F)
+
+//@ func appendRuleAction props C16,C07,C02
+//@   requires OneDisruptive(res, disruptiveActionIndex)
+//@   ensures one: isnil(result2) ==> OneDisruptive(result0, result1)
+//@   ensures size: isnil(result2) ==> len(result0) == len(res) || len(result0) == len(res) + 1
+//@   ensures appended: isnil(result2) && len(result0) == len(res) + 1 ==> suppliedAt(result0, len(res), key, val) &&
+//@       (disruptiveActionIndex == -1 || result0[len(res)].Atype != plugintypes.ActionTypeDisruptive) &&
+//@       result1 == ite(result0[len(res)].Atype == plugintypes.ActionTypeDisruptive, len(res), disruptiveActionIndex)
+//@   ensures lastWins: isnil(result2) && len(result0) == len(res) ==> disruptiveActionIndex != -1 && result1 == disruptiveActionIndex &&
+//@       suppliedAt(result0, disruptiveActionIndex, key, val) && result0[disruptiveActionIndex].Atype == plugintypes.ActionTypeDisruptive
+//@   ensures others: isnil(result2) ==> (forall k int :: 0 <= k && k < len(res) && !(len(result0) == len(res) && k == disruptiveActionIndex) ==>
+//@       result0[k].Key == old(res[k].Key) && result0[k].Value == old(res[k].Value) && result0[k].Atype == old(res[k].Atype) && result0[k].F == old(res[k].F))
+//@   ensures failed: !isnil(result2) ==> result1 == -1 && len(result0) == len(res)
+
+// Scanner state of parseActions, defined by recursion over positions (the scan starts at position 1):
+// aq(s, i): the scanner is inside single quotes when it reaches position i. A byte preceded by a backslash is skipped,
+// an unescaped ' toggles the state.
+//@ spec aq(s string, i int) bool
+//@ axiom aq1: forall s string :: aq(s, 1) == false
+//@ axiom aqEsc: forall s string, i int :: 1 <= i && i < len(s) && s[i-1] == '\\' ==> aq(s, i+1) == aq(s, i)
+//@ axiom aqTog: forall s string, i int :: 1 <= i && i < len(s) && s[i-1] != '\\' && s[i] == '\'' ==> aq(s, i+1) == !aq(s, i)
+//@ axiom aqLit: forall s string, i int :: 1 <= i && i < len(s) && s[i-1] != '\\' && s[i] != '\'' ==> aq(s, i+1) == aq(s, i)
+
+// topLevel(s, i, c): position i holds the delimiter c outside quotes and not preceded by a backslash.
+//@ define topLevel(s string, i int, c int) bool := 1 <= i && i < len(s) && s[i] == c && s[i-1] != '\\' && !aq(s, i)
+
+// segEnd(s, i): the first top-level ',' at or after position i, len(s) if there is none.
+// keyEnd(s, i): the first top-level ',' or ':' at or after position i, len(s) if there is none.
+// Both are defined by (downward) recursion over positions.
+//@ spec segEnd(s string, i int) int
+//@ axiom segEndLen: forall s string :: segEnd(s, len(s)) == len(s)
+//@ axiom segEndHit: forall s string, i int :: 0 <= i && i < len(s) && topLevel(s, i, ',') ==> segEnd(s, i) == i
+//@ axiom segEndStep: forall s string, i int :: 0 <= i && i < len(s) && !topLevel(s, i, ',') ==> segEnd(s, i) == segEnd(s, i+1)
+//@ spec keyEnd(s string, i int) int
+//@ axiom keyEndLen: forall s string :: keyEnd(s, len(s)) == len(s)
+//@ axiom keyEndHit: forall s string, i int :: 0 <= i && i < len(s) && (topLevel(s, i, ',') || topLevel(s, i, ':')) ==> keyEnd(s, i) == i
+//@ axiom keyEndStep: forall s string, i int :: 0 <= i && i < len(s) && !topLevel(s, i, ',') && !topLevel(s, i, ':') ==> keyEnd(s, i) == keyEnd(s, i+1)
+
+// isActionAt(s, b, key, val): a top-level comma-separated segment of s starts at b (b == 0 or just after a top-level
+// ','); key is the lower-cased trimmed text before the segment's first top-level ':' (the whole segment when there is
+// none), val the trimmed, unquoted text after that ':' ("" when there is none).
+//@ define isActionAt(s string, b int, key string, val string) bool :=
+//@     0 <= b && b <= keyEnd(s, b) && keyEnd(s, b) <= segEnd(s, b) && segEnd(s, b) <= len(s) && (b == 0 || topLevel(s, b-1, ',')) &&
+//@     key == lower(trimSpace(s[b:keyEnd(s, b)])) &&
+//@     val == unquoted(trimSpace(ite(keyEnd(s, b) == segEnd(s, b), "", s[keyEnd(s, b)+1:segEnd(s, b)])))
+
+//@ func parseActions props C16,C07
+//@   ensures each: isnil(result1) ==> (forall j int :: 0 <= j && j < len(result0) ==>
+//@       (exists b int :: isActionAt(actions, b, result0[j].Key, result0[j].Value)))
+//@   ensures atMostOneDisruptive: isnil(result1) ==> (forall j int, k int :: 0 <= j && j < k && k < len(result0) ==>
+//@       !(result0[j].Atype == plugintypes.ActionTypeDisruptive && result0[k].Atype == plugintypes.ActionTypeDisruptive))
+//@   ensures typed: isnil(result1) ==> (forall j int :: 0 <= j && j < len(result0) ==> !isnil(result0[j].F) && result0[j].Atype == actionType(result0[j].F))
+//@   ensures nonEmpty: isnil(result1) ==> len(result0) >= 1
+//@   ensures !isnil(result1) ==> len(result0) == 0
+//@   loop 1 vars i, beforeKey, afterKey, inQuotes, res, disruptiveActionIndex
+//@     invariant 1 <= i && (i <= len(actions) || len(actions) == 0)
+//@     invariant -1 <= beforeKey && beforeKey < i && beforeKey < len(actions)
+//@     invariant afterKey == -1 || (beforeKey < afterKey && afterKey < i)
+//@     invariant OneDisruptive(res, disruptiveActionIndex)
+//@     invariant inQuotes == aq(actions, i)
+//@     invariant beforeKey == -1 || topLevel(actions, beforeKey, ',')
+//@     invariant forall k int :: beforeKey < k && k < i ==> !topLevel(actions, k, ',')
+//@     invariant afterKey != -1 ==> topLevel(actions, afterKey, ':')
+//@     invariant forall k int :: beforeKey < k && k < ite(afterKey == -1, i, afterKey) ==> !topLevel(actions, k, ':')
+//@     invariant len(actions) == 0 || segEnd(actions, beforeKey+1) == segEnd(actions, i)
+//@     invariant len(actions) == 0 || keyEnd(actions, beforeKey+1) == ite(afterKey == -1, keyEnd(actions, i), afterKey)
+//@     invariant forall j int :: 0 <= j && j < len(res) ==> (exists b int :: isActionAt(actions, b, res[j].Key, res[j].Value))
+//@     invariant forall j int :: 0 <= j && j < len(res) ==> !isnil(res[j].F) && res[j].Atype == actionType(res[j].F)
+//@     decreases len(actions) - i
+
+// ---------------------------------------------------------------- SecRule line: targets, quoted operator, quoted actions
+
+// Grammar of the text after "SecRule", relative to the line d with its leading and trailing spaces removed:
+//     d = vars SP SP* quoted SP* [ '"' actions '"' ]
+// vars is the first space-free token; quoted is cut at the first '"' preceded by an even number of backslashes
+// (closingQuoteAt); op is its content with \" unescaped; actions is what is between the enclosing quotes of the rest.
+//@ define allSp(s string, i int, j int) bool := forall k int :: i <= k && k < j ==> s[k] == ' '
+//@ define noSpEnds(d string) bool := len(d) > 0 ==> d[0] != ' ' && d[len(d)-1] != ' '
+//@ define isDecodedQ(r string, s string) bool := (hasBackslash(s) ==> r == unq(s, len(s))) && (!hasBackslash(s) ==> r == s)
+//@ define actionsPart(A string, actions string) bool :=
+//@     (len(A) == 0 && actions == "") || (len(A) >= 2 && A[0] == '"' && A[len(A)-1] == '"' && actions == A[1:len(A)-1])
+//@ define tailPart(T string, actions string) bool := exists c2 int :: 0 <= c2 && c2 <= len(T) && allSp(T, 0, c2) &&
+//@     (len(T[c2:len(T)]) > 0 ==> T[c2:len(T)][0] != ' ') && actionsPart(T[c2:len(T)], actions)
+// cutAt(Q, m): Q starts with '"' and its first closing quote is at m-1 (Q[0:m] is the quoted string, Q[m:] the rest).
+//@ define cutAt(Q string, m int) bool := 2 <= m && m <= len(Q) && Q[0] == '"' && closingQuoteAt(Q, m-1) &&
+//@     (forall k int :: 1 <= k && k < m-1 ==> !closingQuoteAt(Q, k))
+//@ define opPart(Q string, op string) bool := exists m int :: cutAt(Q, m) && isDecodedQ(op, unquoted(Q[0:m]))
+//@ define actPart(Q string, actions string) bool := exists m int :: cutAt(Q, m) && tailPart(Q[m:len(Q)], actions)
+// leadSp(R, c): R = SP^c '"' ...
+//@ define leadSp(R string, c int) bool := 0 <= c && c < len(R) && allSp(R, 0, c) && R[c] == '"'
+// trimmedAt(data, a, b): data[a:b] is data without its leading and trailing spaces.
+//@ define trimmedAt(data string, a int, b int) bool := 0 <= a && a <= b && b <= len(data) && allSp(data, 0, a) && allSp(data, b, len(data)) && noSpEnds(data[a:b])
+//@ define varsPart(d string, vars string) bool := 1 <= len(vars) && len(vars) < len(d) &&
+//@     vars == d[0:len(vars)] && (forall k int :: 0 <= k && k < len(vars) ==> vars[k] != ' ') && d[len(vars)] == ' '
+
+//@ define afterVars(d string, vars string) string := d[len(vars)+1:len(d)]
+//@ define from(R string, c int) string := R[c:len(R)]
+
+// The three clauses share the witnesses a, b (the trimmed line), c (start of the quoted operator) and m (its end):
+// each of them is determined uniquely by trimmedAt / leadSp / cutAt, so the clauses describe one decomposition.
+//@ func parseActionOperator props C16,C07
+//@   ensures varsToken: isnil(err) ==> (exists a int, b int :: trimmedAt(data, a, b) && varsPart(data[a:b], vars))
+//@   ensures operator: isnil(err) ==> (exists a int, b int :: trimmedAt(data, a, b) && len(vars) < len(data[a:b]) &&
+//@       (exists c int :: leadSp(afterVars(data[a:b], vars), c) && opPart(from(afterVars(data[a:b], vars), c), op)))
+//@   ensures actionList: isnil(err) ==> (exists a int, b int :: trimmedAt(data, a, b) && len(vars) < len(data[a:b]) &&
+//@       (exists c int :: leadSp(afterVars(data[a:b], vars), c) && actPart(from(afterVars(data[a:b], vars), c), actions)))
+//@   ensures rejectsOneToken: (forall k int :: 0 <= k && k < len(data) ==> data[k] != ' ') ==> !isnil(err)
+//@   ensures failed: !isnil(err) ==> op == "" && actions == ""
+
+// ---------------------------------------------------------------- targets and operator (safety of the scanners)
+
+//@ func (*RuleParser).ParseVariables props C16,C07
+//@   requires rp.rule != nil
+//@   loop 1 vars i
+//@     invariant 0 <= i
+//@     invariant rp.rule == old(rp.rule)
+
+//@ func (*RuleParser).ParseOperator props C16,C07
+//@   requires rp.rule != nil
